@@ -147,7 +147,7 @@ func (s *c04Side) exec(sp *c04Spec, i int, e c04Exec, ctx pongo2.Context) *ExecR
 	s.w.Plan = e.Plan
 	s.w.active = map[int]int{}
 	s.w.OpBegin(i)
-	r := s.w.Exec(s.tpl, e.Entry, ctx, sp.Prog.Blocks)
+	r := s.w.Exec(s.tpl, e.Entry, ctx, blockSel(sp.Prog.Blocks, i+e.Ctx))
 	s.w.OpEnd(i)
 	return r
 }
